@@ -91,7 +91,10 @@ theorem updateLoop_single (now : Int) (spec document nowV : Val) (l : List (Val 
           | ok new =>
             dsimp only
             by_cases hb : (if c.isOD key then pyEqOrdered new cur else pyEq new cur) = true
-            · rw [if_pos hb]; right; exact ⟨u, by simp⟩
+            · rw [if_pos hb]
+              cases hu : ensureUniques now (c.setDoc key new) new with
+              | error e => left; rfl
+              | ok c2 => right; exact ⟨u, by simp⟩
             · rw [if_neg hb]
               generalize (!pyEqOpt _ _) = q
               cases q with
